@@ -1,0 +1,8 @@
+//go:build verif
+
+// Contracts checked by /verif/govc (comment-only; compiled only with -tags verif).
+package smallfields
+
+//@ contract IsSmallField
+//@   props C09
+//@   assigns nothing
